@@ -18,10 +18,11 @@
    Runs under ASan: writes outside the requested block are reported by the sanitizer.
 
    Input (stdin): C <case> <engine> <nitems> <form> (engine 0 interp, 1 gen, 2 lazy gen, 3 lazy bb gen), then per item
-     I <kind> <named> <type> <n> <disp> <l1> <l2> <sec> <off> <len> <secsize|-1> <tkind> <tidx> <edisp> <nbytes> {byte}* <ninit> {byte}*
+     I <kind> <named> <type> <n> <disp> <l1> <l2> <sec> <off> <len> <secsize|-1> <tkind> <tidx> <via> <edisp> <nbytes> {byte}* <ninit> {byte}*
        (bytes: expected contents of data/expr; init: the bytes the item is declared with / the expression returns)
    kind 0 data 1 bss 2 ref 3 lref 4 expr 5 proto 6 string (init = str.s, ninit = str.len); type index in MIR_T_I8..MIR_T_P order;
-   tkind 0 item 1 ext 2 mod 3 func (ref only); disp is declared, edisp is the displacement the model expects;
+   tkind 0 item 1 ext 2 mod 3 func (ref only); via (ref to a named item): 0 the definition / `forward x`,
+   1 `forward x` then `export x` (through the forward), 2 `export x` (through the export), 3 `export x` then `forward x`; disp is declared, edisp is the displacement the model expects;
    for form 1 a line  T <hex of the module text>;  then E.
    Output: P <case> before every case, FAIL <case> <item> <key> <text>, final DONE <cases> <items> <fails>. */
 #include <stdio.h>
@@ -91,7 +92,7 @@ static void MIR_NO_RETURN trap (MIR_error_type_t t, const char *fmt, ...) {
 #define NEPI 4 /* epilogue items: lah, la1, la2, la3 */
 #define MAXB 300
 typedef struct {
-  int kind, named, type, n, disp, l1, l2, sec, off, len, secsize, tkind, tidx, edisp, nbytes;
+  int kind, named, type, n, disp, l1, l2, sec, off, len, secsize, tkind, tidx, via, edisp, nbytes;
   unsigned char bytes[MAXB], init[MAXB];
   int ninit;
   MIR_item_t item;
@@ -153,7 +154,7 @@ static MIR_item_t expr_func (MIR_context_t ctx, int type, const unsigned char *b
 static void run_case (void) {
   MIR_context_t ctx = MIR_init2 (&r_alloc, NULL);
   MIR_module_t m0, m;
-  MIR_item_t modd, imp_ext, imp_mod, lf, fw[MAXI + 2], efunc[12], la[4] = {NULL, NULL, NULL, NULL};
+  MIR_item_t modd, imp_ext, imp_mod, lf, fw[MAXI + 2], ex[MAXI + 2], via_item[MAXI + 2], efunc[12], la[4] = {NULL, NULL, NULL, NULL};
   MIR_label_t L[4];
   MIR_type_t i64 = MIR_T_I64;
   MIR_reg_t a, out, r, t;
@@ -199,11 +200,22 @@ static void run_case (void) {
   m = MIR_new_module (ctx, "m");
   imp_ext = MIR_new_import (ctx, "ext1");
   imp_mod = MIR_new_import (ctx, "modd");
-  memset (fw, 0, sizeof (fw)); memset (efunc, 0, sizeof (efunc));
-  for (int i = 1; i <= nitems; i++)
-    if (it[i].kind == 2 && it[i].tkind == 0 && it[i].tidx > i) {
-      sprintf (name, "d%d", it[i].tidx);
-      fw[it[i].tidx] = MIR_new_forward (ctx, name);
+  memset (fw, 0, sizeof (fw)); memset (efunc, 0, sizeof (efunc)); memset (via_item, 0, sizeof (via_item));
+  memset (ex, 0, sizeof (ex));
+  for (int i = 1; i <= nitems; i++) /* declarations of ref targets, in the order the refs appear; repeated ones merge */
+    if (it[i].kind == 2 && it[i].tkind == 0 && (it[i].tidx > i || it[i].via != 0)) {
+      int j = it[i].tidx;
+      MIR_item_t f1 = NULL, e1 = NULL;
+      sprintf (name, "d%d", j);
+      switch (it[i].via) {
+      case 0: f1 = MIR_new_forward (ctx, name); break;
+      case 1: f1 = MIR_new_forward (ctx, name); e1 = MIR_new_export (ctx, name); break;
+      case 2: e1 = MIR_new_export (ctx, name); break;
+      default: e1 = MIR_new_export (ctx, name); f1 = MIR_new_forward (ctx, name); break;
+      }
+      if (f1 != NULL && f1->item_type == MIR_forward_item) fw[j] = f1;
+      if (e1 != NULL && e1->item_type == MIR_export_item) ex[j] = e1;
+      via_item[i] = it[i].via == 2 ? e1 : f1;
     }
   lf = MIR_new_func (ctx, "lf", 1, &i64, 2, MIR_T_I64, "a", MIR_T_I64, "out");
   a = MIR_reg (ctx, "a", lf->u.func);
@@ -235,7 +247,7 @@ static void run_case (void) {
     case 0: x->item = MIR_new_data (ctx, nmp, types[x->type], x->n, x->init); break;
     case 1: x->item = MIR_new_bss (ctx, nmp, x->n); break;
     case 2:
-      tg = x->tkind == 1 ? imp_ext : x->tkind == 2 ? imp_mod : x->tkind == 3 ? lf : x->tidx < i ? it[x->tidx].item : fw[x->tidx];
+      tg = x->tkind == 1 ? imp_ext : x->tkind == 2 ? imp_mod : x->tkind == 3 ? lf : (x->tidx < i && x->via == 0) ? it[x->tidx].item : via_item[i];
       x->item = MIR_new_ref_data (ctx, nmp, tg, x->disp);
       break;
     case 3: x->item = MIR_new_lref_data (ctx, nmp, L[x->l1], x->l2 ? L[x->l2] : NULL, x->disp); break;
@@ -346,8 +358,8 @@ int main (void) {
       for (int i = 1; i <= nitems; i++) {
         it_t *x = &it[i];
         if (scanf ("%7s", tag) != 1 || tag[0] != 'I') return 3;
-        if (scanf ("%d %d %d %d %d %d %d %d %d %d %d %d %d %d %d", &x->kind, &x->named, &x->type, &x->n, &x->disp, &x->l1, &x->l2, &x->sec,
-                   &x->off, &x->len, &x->secsize, &x->tkind, &x->tidx, &x->edisp, &x->nbytes) != 15 || x->nbytes > MAXB) return 3;
+        if (scanf ("%d %d %d %d %d %d %d %d %d %d %d %d %d %d %d %d", &x->kind, &x->named, &x->type, &x->n, &x->disp, &x->l1, &x->l2, &x->sec,
+                   &x->off, &x->len, &x->secsize, &x->tkind, &x->tidx, &x->via, &x->edisp, &x->nbytes) != 16 || x->nbytes > MAXB) return 3;
         for (int j = 0; j < x->nbytes; j++) { int b; if (scanf ("%d", &b) != 1) return 3; x->bytes[j] = (unsigned char) b; }
         if (scanf ("%d", &x->ninit) != 1 || x->ninit > MAXB) return 3;
         for (int j = 0; j < x->ninit; j++) { int b; if (scanf ("%d", &b) != 1) return 3; x->init[j] = (unsigned char) b; }
